@@ -38,9 +38,11 @@ class Builder:
             self.info[dst] = {"cols": cols, "aliases": aliases, "lineage": lineage, "joined": joined}
             self.mine.append(dst)
 
-    def colref(self, h, c, allow_frame=True):
+    def colref(self, h, c, allow_frame=True, must_qualify=False):
         inf = self.info[h]
         r = self.rnd.random()
+        if must_qualify and not inf["aliases"]:
+            r = 0.5
         if inf["aliases"] and r < 0.45:
             return {"q": ["name", self.rnd.choice(sorted(inf["aliases"]))], "c": c}
         if allow_frame and r < 0.7:
@@ -48,6 +50,10 @@ class Builder:
                     and (self.allow_peer or x[0] == ('p' if self.owner == 'P' else 'h'))]
             if cand:
                 return {"q": ["frame", self.rnd.choice(cand)], "c": c}
+        if must_qualify:
+            own = h if (self.allow_peer or h[0] == ('p' if self.owner == 'P' else 'h')) else None
+            if own is not None:
+                return {"q": ["frame", own], "c": c}
         return {"q": None, "c": c}
 
     def create(self):
@@ -99,7 +105,8 @@ class Builder:
             else:
                 lc = self.rnd.choice(uniq)
                 rc = self.rnd.choice(list(dict.fromkeys(oinf["cols"])))
-                on = ["expr", self.colref(src, lc), self.colref(other, rc)]
+                q = self.rnd.random() < 0.9
+                on = ["expr", self.colref(src, lc, must_qualify=q), self.colref(other, rc, must_qualify=q)]
                 ncols = cols + oinf["cols"]
             self.emit({"op": "join", "dst": dst, "l": src, "r": other, "on": on}, dst, ncols,
                       set(inf["aliases"]) | set(oinf["aliases"]), inf["lineage"] | oinf["lineage"] | {dst}, True)
